@@ -250,6 +250,16 @@ def fresh_of_type(st, name, ty, inputs=None):
     elif k == "opaque":
         from .glue import Op
         v = Op(name, "param")
+    elif k == "where2d":
+        from .gather import WhereIdx
+        from .lazy import LArr
+        n0, n1 = fresh_int(name + ".n0"), fresh_int(name + ".n1")
+        st.assume(n0 >= 0)
+        st.assume(n1 >= 0)
+        m = alloc_array(st, name + ".mask", "b", [n0, n1])
+        m.name = name + ".mask"
+        v = WhereIdx(LArr("b", [n0, n1], (lambda ix, st2, m=m: array_read(st2, m, ix)), None, "param-mask"))
+        v.param_mask = m
     elif k == "where1d":
         # the value of np.where(m) for an unknown 1-D boolean array m: a 1-tuple of increasing, distinct positions
         from .gather import WhereIdx
